@@ -112,7 +112,7 @@ def history_c03(r, quick):
 
 def history_c13(r, quick):
     p0 = vprogs.random_prog(r, nmem=r.choice([2, 3]), nplain=r.choice([1, 2]), nvar=2, hidden_p=0.0,
-                            forms=("bare", "attr", "alias", "alias"), init_p=0.2, twins_p=0.2, late_p=0.2, shapes_p=0.5, factory_p=0.2, lambdas_p=0.2)
+                            forms=("bare", "attr", "alias", "alias"), init_p=0.2, twins_p=0.2, late_p=0.2, shapes_p=0.5, factory_p=0.2, lambdas_p=0.2, tuple_p=0.3)
     # a reference to a symbol that does not exist yet
     if r.random() < 0.5:
         r.choice([n for n in p0["nodes"] if n["kind"] in ("mem", "plain")])["refs"].append({"to": "u1", "form": "bare"})
@@ -295,14 +295,14 @@ def history_aba(r, prop):
 
 
 DIRECTED = ["slot:body", "slot:const", "slot:dflt", "slot:kwd", "slot:nested", "slot:setc", "slot:tup", "var", "var_mutate",
-            "addref", "delref", "init_helper", "twin_sm", "late_var", "late_var_mutate", "factory", "lambda"]
+            "addref", "delref", "init_helper", "twin_sm", "late_var", "late_var_mutate", "factory", "lambda", "tuple_mutate", "shadow_builtin"]
 
 
 def history_directed(r, prop, kind, inproc):
     """One edit of a given kind to something m1 (transitively) uses, delivered in-process or by a new process,
     with m1 asked before and after: every kind of edit is exercised in every run, not only when the dice say so."""
     feat = {"init_helper": {"init_p": 1.0}, "twin_sm": {"twins_p": 1.0}, "late_var": {"late_p": 1.0},
-            "late_var_mutate": {"late_p": 1.0}, "factory": {"factory_p": 1.0}, "lambda": {"lambdas_p": 1.0}}.get(kind, {})
+            "late_var_mutate": {"late_p": 1.0}, "factory": {"factory_p": 1.0}, "lambda": {"lambdas_p": 1.0}, "tuple_mutate": {"tuple_p": 1.0}}.get(kind, {})
     feat = dict(feat, shapes_p=0.6)
     for _ in range(200):
         p0 = vprogs.random_prog(r, nmem=r.choice([2, 3]), nplain=r.choice([1, 2]), nvar=2, hidden_p=0.0, **feat)
@@ -320,6 +320,27 @@ def history_directed(r, prop, kind, inproc):
                 n = c[0]
                 n["slots"][r.choice(vprogs.SLOTS)] += 1
                 ed = {"edit": "init_helper", "name": n["name"]}
+        elif kind == "tuple_mutate":
+            c = [v for v in vars_ if v.get("tuple")]
+            if c:
+                n = c[0]
+                n["val"][1].append(len(n["val"][1]) + 10)
+                ed = {"edit": "var_mutate", "name": n["name"]}
+        elif kind == "shadow_builtin":
+            # the module gets its own plain function under the name of a builtin that a function m1 uses calls by bare name
+            users = [f for f in fns if any(q.get("shape") == "strarg" for q in f["refs"])]
+            if not users and fns:
+                cand = [(f, q) for f in fns for q in f["refs"] if q["to"] != "vs"]
+                if cand:
+                    f, q = r.choice(cand)
+                    q["shape"] = "strarg"
+                    p0 = copy.deepcopy(p)
+                    users = [f]
+            if users and vprogs.node(p, "str") is None:
+                n = {"name": "str", "kind": "plain", "shadow": True, "slots": {s_: 0 for s_ in vprogs.SLOTS}, "refs": [], "hidden": [],
+                     "explicit": None, "cluster": "vz"}
+                p["nodes"].append(n)
+                ed = {"edit": "shadow_builtin", "name": "str"}
         elif kind == "lambda":
             c = [n for n in fns if n.get("lam")]
             if c:
